@@ -85,6 +85,7 @@ CLASS_POINTS = {16: [8, 10, 12], 32: [16, 20, 24], 64: [32, 48, 62]}
 
 class C16(Check):
     PROP = "C16"
+    CRASH_ORACLE = "C16.constant"
     HANG_ORACLE = "C16.budget"  # no progress while analysing a larger capacity: the cost grows with the capacity
     HANG_S = 45
     RULE = ("each run = one skeleton family: a generated namespace (nested up to 3 levels, sub-byte and byte-aligned elements mixed, "
